@@ -300,7 +300,7 @@ func finish(prop, tier, verifDir string, start time.Time, r *propResult) int {
 		"obligation_list":          r.obs,
 		"samples":                  samples,
 		"checker_cmd":              fmt.Sprintf("bin/trzszlint check %s --tier %s", prop, tier),
-		"trusted_base": []string{"go/types and go/ssa of golang.org/x/tools v0.29.0", "go list export data of the default toolchain",
+		"trusted_base": []string{"go/types; go/ssa of golang.org/x/tools v0.29.0 as copied into checker/xssa, with the expander / branch normaliser added to it (xssa/inline.go: meaning-preserving except that panics inside an expanded helper with defer are not modelled; every function it touches is re-checked with go/ssa's sanityCheck)", "go list export data of the default toolchain",
 			"the rule tables frozen in /verif/checker (exception tables with reasons)", "/repo builds with the tags the checker loads"},
 		"exhaustive": false,
 	}
